@@ -30,6 +30,24 @@ type inferArgs struct {
 		Type json.RawMessage `json:"type"`
 		Opts inferOpts       `json:"opts"`
 	} `json:"pre"`
+	// Warm: types on which ForType is called BEFORE the call under test with the SAME *ForOptions value (one TypeSchemas map, one
+	// set of entry schemas shared by all the calls), results discarded: what a program that keeps its options in a variable does.
+	// Empty (the default): the call under test is the first use of its options object.
+	Warm []json.RawMessage `json:"warm"`
+}
+
+// runWarm performs the earlier calls that share the options object of the call under test.
+func (a *inferArgs) runWarm(opts *jsonschema.ForOptions) {
+	for _, w := range a.Warm {
+		t, err := buildType(w)
+		if err != nil {
+			continue
+		}
+		func() {
+			defer func() { recover() }()
+			jsonschema.ForType(t, opts)
+		}()
+	}
 }
 
 // runPre performs the earlier calls of the history and discards their results.
@@ -114,6 +132,62 @@ func restKeys(t reflect.Type, over map[reflect.Type]*jsonschema.Schema, full []s
 		}
 	}
 	return out
+}
+
+// overrideKeys: the other half of "every TypeSchemas entry is substituted wherever its type occurs", for entries of EMBEDDED field
+// types (exact type of an anonymous field reflect.VisibleFields lists). missing: property names of such an entry that the result
+// does not list; leaked: JSON names of fields promoted through an overridden embedded field that the result lists although neither
+// the entry nor a field outside the overridden type declares them.
+func overrideKeys(t reflect.Type, over map[reflect.Type]*jsonschema.Schema, s *jsonschema.Schema) (missing, leaked []string) {
+	missing, leaked = []string{}, []string{}
+	keep, under, ov := map[string]bool{}, map[string]bool{}, map[string]bool{}
+	for _, f := range reflect.VisibleFields(t) {
+		if f.Anonymous {
+			if o := over[f.Type]; o != nil {
+				for k := range o.Properties {
+					ov[k] = true
+				}
+			}
+			continue
+		}
+		if !f.IsExported() {
+			continue
+		}
+		name := f.Name
+		if tag, ok := f.Tag.Lookup("json"); ok {
+			if tag == "-" {
+				continue
+			}
+			tn, _, _ := strings.Cut(tag, ",")
+			if tn != "" {
+				name = tn
+			}
+		}
+		isUnder := false
+		for n := 1; n < len(f.Index); n++ {
+			if af := t.FieldByIndex(f.Index[:n]); af.Anonymous && over[af.Type] != nil {
+				isUnder = true
+			}
+		}
+		if isUnder {
+			under[name] = true
+		} else {
+			keep[name] = true
+		}
+	}
+	for k := range ov {
+		if s.Properties[k] == nil {
+			missing = append(missing, k)
+		}
+	}
+	for k := range under {
+		if !keep[k] && !ov[k] && s.Properties[k] != nil {
+			leaked = append(leaked, k)
+		}
+	}
+	sort.Strings(missing)
+	sort.Strings(leaked)
+	return missing, leaked
 }
 
 func (a *inferArgs) forOptions() (*jsonschema.ForOptions, error) {
@@ -280,6 +354,7 @@ func init() {
 					res["full_keys"] = objectKeys(fb)
 				} else if opts.TypeSchemas[tt] == nil {
 					res["rest_keys"] = restKeys(tt, opts.TypeSchemas, objectKeys(fb))
+					res["override_missing"], res["override_leaked"] = overrideKeys(tt, opts.TypeSchemas, s1)
 				}
 				res["zero_keys"] = objectKeys(zb)
 				// fields that encoding/json can never emit: omitempty on a zero-length array type (always "empty")
@@ -327,9 +402,13 @@ func init() {
 		}
 		res := map[string]any{"features": features(t), "gotype": t.String()}
 		a.runPre()
+		a.runWarm(opts)
 		s, err := jsonschema.ForType(t, opts)
 		if err != nil || s == nil {
 			res["outcome"] = "error"
+			if err != nil {
+				res["detail"] = err.Error()
+			}
 			return res, nil
 		}
 		rs, err := s.Resolve(nil)
@@ -449,8 +528,8 @@ func fillNonZero(v reflect.Value) {
 	switch v.Kind() {
 	case reflect.Struct:
 		for i := 0; i < v.NumField(); i++ {
-			if v.Field(i).CanSet() {
-				fillNonZero(v.Field(i))
+			if fv := settable(v.Field(i), v.Type().Field(i)); fv.CanSet() {
+				fillNonZero(fv)
 			}
 		}
 	case reflect.Bool:
